@@ -58,6 +58,14 @@ class Recorder:
     def rotation(self, phi, mode):
         self.calls.append(dict(call="free", g="rotation"))
 
+    def __getattr__(self, name):
+        if name.startswith("_"):
+            raise AttributeError(name)
+
+        def rec(*a, **k):
+            self.calls.append(dict(call="free", g=name))
+        return rec
+
 
 def apply_real(op, regs, backend):
     """what the engine does with a command: apply it, or decompose it when the class has no `_apply`"""
@@ -156,22 +164,173 @@ def frontend_cases(ctx, sf, count):
     out = []
     for it in range(count):
         h = HBARS[it % len(HBARS)]
+        hb_ = h if rng.random() < 0.7 else rng.choice([x for x in HBARS if x != h])   # hbar while the objects are built
         s = math.sqrt(h / 2)
         n = rng.randint(1, 4)
+        try:
+            prog = sf.Program(n)
+            rec = Recorder()
+            mops, built = [], []
+            sf.hbar = hb_
+            for _ in range(rng.randint(1, 6)):
+                m, build, regs = rand_fop(rng, n)
+                built.append((build(ops), regs))
+                mops.append(m)
+            sf.hbar = h
+            for op, regs in built:
+                apply_real(op, [prog.register[i] for i in regs], rec)
+        finally:
+            sf.hbar = 2
+        case = dict(hbar=h, hbar_build=hb_, n=n, ops=mops)
+        if hb_ == h:
+            out.append((dict(op="hbar.compile", s=fr(s), ops=mops), rec.calls, case))
+        else:
+            out.append((dict(op="hbar.compileAt", s=fr(s), sBuild=fr(math.sqrt(hb_ / 2)), ops=mops), rec.calls, case))
+    return out
+
+
+def decomp_cases(ctx, sf, count):
+    """displacement tail of the real `Gaussian(V, r).decompose(...)` applied to the recorder vs `hbar.decomp`"""
+    from strawberryfields import ops
+    rng = ctx.rng
+    out = []
+    for it in range(count):
+        h = HBARS[it % len(HBARS)]
+        s = math.sqrt(h / 2)
+        n = rng.randint(1, 3)
+        kk = rng.randint(1, min(n, 2))
+        modes = rng.sample(range(n), kk)
+        u = rng.random()
+        if u < 0.3:
+            V = np.eye(2 * kk) * (h / 2)                       # vacuum: pure diagonal branch
+        elif u < 0.5:
+            V = np.diag([1.0 + 2 * rng.choice([0.0, 0.5]) for _ in range(kk)] * 2) * (h / 2)     # thermal branch
+        else:
+            V = rand_spd(rng, kk) * (h / 2)
+        r = np.array([rng.choice([0.0, rng.randint(-8, 8) / 4]) for _ in range(2 * kk)])
         sf.hbar = h
         try:
             prog = sf.Program(n)
             rec = Recorder()
-            mops = []
-            for _ in range(rng.randint(1, 6)):
-                m, build, regs = rand_fop(rng, n)
-                op = build(ops)
-                apply_real(op, [prog.register[i] for i in regs], rec)
-                mops.append(m)
+            op = ops.Gaussian(V, r.copy())
+            for cmd in op.decompose([prog.register[i] for i in modes]):
+                apply_real(cmd.op, cmd.reg, rec)
         finally:
             sf.hbar = 2
-        case = dict(hbar=h, n=n, ops=mops)
-        out.append((dict(op="hbar.compile", s=fr(s), ops=mops), rec.calls, case))
+        real = [c for c in rec.calls if c["call"] == "displacement"]
+        case = dict(hbar=h, modes=modes, r=[float(x) for x in r])
+        out.append((dict(op="hbar.decomp", s=fr(s), r=[fr(float(x)) for x in r], modes=modes), real, case))
+    return out
+
+
+# ---------------------------------------------------------------- bosonic and Fock state objects
+
+def bstate_cases(ctx, sf, count):
+    from strawberryfields.backends.states import BaseBosonicState
+    rng = ctx.rng
+    out = []
+    q = lambda d=4: Fraction(rng.randint(-6, 6), d)
+    for it in range(count):
+        h = HBARS[it % len(HBARS)]
+        s = math.sqrt(h / 2)
+        n = rng.choice([1, 2, 2, 3])
+        k = rng.randint(1, 4)
+        w = [q(4) for _ in range(k)]
+        mus = [[rng.choice([Fraction(0), q()]) for _ in range(2 * n)] for _ in range(k)]
+        covs = []
+        for _ in range(k):
+            A = [[q(2) for _ in range(2 * n)] for _ in range(2 * n)]
+            covs.append([[sum(A[i][l] * A[j][l] for l in range(2 * n)) + (1 if i == j else 0) for j in range(2 * n)]
+                         for i in range(2 * n)])
+        f = lambda x: float(x)
+        calls, real = [], []
+        sf.hbar = h
+        try:
+            st = BaseBosonicState((np.array([[f(x) for x in r] for r in mus]), np.array([[[f(x) for x in r] for r in c] for c in covs]),
+                                   np.array([f(x) for x in w])), n, k)
+            for _ in range(rng.randint(3, 8)):
+                m = rng.choice(["meanPhoton", "displacement", "quad", "redIdx"])
+                mode = rng.randrange(n)
+                if m == "meanPhoton":
+                    calls.append(dict(m=m, mode=mode))
+                    real.append([complex(x).real for x in st.mean_photon(mode)])
+                elif m == "displacement":
+                    calls.append(dict(m=m, mode=mode))
+                    z = complex(st.displacement([mode])[0])
+                    real.append([z.real, z.imag])
+                elif m == "quad":
+                    c, sn = circle(rng)
+                    phi = math.atan2(sn, c)
+                    c, sn = math.cos(phi), math.sin(phi)
+                    calls.append(dict(m=m, mode=mode, c=fr(c), sn=fr(sn)))
+                    a, b = st.quad_expectation(mode, phi)
+                    real.append([complex(a).real / s, complex(b).real / s ** 2])
+                else:
+                    modes = sorted(rng.sample(range(n), rng.randint(1, n)))
+                    calls.append(dict(m=m, mode=0, modes=modes))
+                    _, mu_red, cov_red = st.reduced_bosonic(list(modes))
+                    full = np.asarray(st.means())
+                    # the positions of the reduced data inside the full data
+                    idx = []
+                    for col in range(np.asarray(mu_red).shape[1]):
+                        hits = [j for j in range(full.shape[1]) if np.array_equal(full[:, j], np.asarray(mu_red)[:, col])
+                                and np.array_equal(np.asarray(st.covs())[:, j, j], np.asarray(cov_red)[:, col, col])]
+                        idx.append(hits)
+                    real.append(("idx", idx))
+        finally:
+            sf.hbar = 2
+        req = dict(op="hbar.bstate", s=fr(s), n=n, w=[fr(f(x)) for x in w], mu2=[[fr(f(x)) for x in r] for r in mus],
+                   cov2=[[[fr(f(x)) for x in r] for r in c] for c in covs], calls=calls)
+        case = dict(hbar=h, n=n, k=k, w=[f(x) for x in w], calls=calls)
+        out.append((req, real, case))
+    return out
+
+
+def banswers_equal(model, real, tol=1e-9):
+    if len(model) != len(real):
+        return "length"
+    for i, (m, r) in enumerate(zip(model, real)):
+        if isinstance(r, tuple) and r[0] == "idx":
+            # model: list of indices; real: for each reduced column the candidate positions in the full data
+            if len(m) != len(r[1]) or not all(a in hits for a, hits in zip(m, r[1])):
+                return f"call {i}: reduced_bosonic indices model {m} real candidates {r[1]}"
+            continue
+        mv = [unfr(x) for x in m]
+        for a, b in zip(mv, r):
+            if abs(a - b) > tol * max(1.0, abs(a)):
+                return f"call {i}: model {a} real {b}"
+    return None
+
+
+def fockquad_cases(ctx, sf, count):
+    from strawberryfields.backends.states import BaseFockState
+    from lib import sim
+    rng = ctx.rng
+    out = []
+    for it in range(count):
+        h = HBARS[it % len(HBARS)]
+        s = math.sqrt(h / 2)
+        D = rng.choice([2, 3, 3, 4])
+        n = rng.choice([1, 1, 2])
+        shape = [D] * (2 * n)
+        re = np.array([rng.randint(-4, 4) / 8 for _ in range(D ** (2 * n))]).reshape(shape)
+        im = np.array([rng.randint(-4, 4) / 8 for _ in range(D ** (2 * n))]).reshape(shape)
+        rho = re + 1j * im
+        mode = rng.randrange(n)
+        c, sn = circle(rng)
+        phi = math.atan2(sn, c)
+        c, sn = math.cos(phi), math.sin(phi)
+        sf.hbar = h
+        try:
+            st = BaseFockState(rho.copy(), n, False, D)
+            mean, var = st.quad_expectation(mode, phi)
+        finally:
+            sf.hbar = 2
+        red = sim.reduced_dm(rho, n, [mode])
+        req = dict(op="hbar.fockquad", s=fr(s), D=D, c=fr(c), sn=fr(sn), sq=[fr(math.sqrt(i)) for i in range(D + 5)],
+                   re=[[fr(float(x)) for x in row] for row in red.real], im=[[fr(float(x)) for x in row] for row in red.imag])
+        case = dict(hbar=h, D=D, n=n, mode=mode, phi=phi)
+        out.append((req, [float(mean), float(var)], case))
     return out
 
 
